@@ -5,6 +5,8 @@
   correspondence; the composition over chains is what is proved.)
 -/
 import NPModel.State.Kinds
+import NPModel.Refine.SoundFrames
+import NPModel.Refine.SamplesFrame
 namespace NP.C18
 open NP.State
 
@@ -91,5 +93,61 @@ example : FKind.Closed { isNestedFrame := true, cols := [("x", .base), ("n", .ne
   intro c hc
   simp only [List.mem_cons, List.mem_nil_iff, or_false] at hc
   rcases hc with rfl | rfl <;> simp
+
+
+/-! ### on the implementation model: the storage invariant of a frame
+
+The closure model above is about classes and kinds.  The theorems below are about the
+implementation model itself (`NP.NFrame`): `NFrame.Sound` — every base column has one cell per
+row, every nested column is clean storage (well formed, validated, nothing hidden under missing
+rows, ≥ 1 field, ≥ 1 chunk) with one row per frame row — is an invariant of the operations that
+rebuild a nested column, so every theorem that needs clean storage (C03, C06, C07, C10–C13) applies
+again to the result, to any depth of chaining. -/
+
+open NP in
+/-- **One step**: a successful nested `query`, `dropna` or `sort_values` on a sound frame returns a
+    sound frame, which is the old frame with that ONE column replaced (any expression, keys,
+    how/thresh/subset — only success is assumed). -/
+theorem rebuilding_step_keeps_frames_sound (F : NFrame Cell) (h : F.Sound) (op : NestOp) (F' : NFrame Cell)
+    (hok : op.run F = .ok F') : F'.Sound ∧ ∃ col, F' = F.setCol op.target (.nest col) :=
+  NestOp.run_sound F h op F' hok
+
+open NP in
+/-- **Chains of any length**: whatever sequence of nested queries, dropnas and sorts succeeds on a
+    sound frame, the result is sound and has the same index — no row of the frame is ever added,
+    dropped or moved (by induction over the chain). -/
+theorem rebuilding_chains_stay_sound (ops : List NestOp) (F : NFrame Cell) (h : F.Sound) (F' : NFrame Cell)
+    (hok : runChain F ops = .ok F') : F'.Sound ∧ F'.index = F.index :=
+  runChain_sound ops F h F' hok
+
+open NP in
+/-- the pieces: `take` with a missing fill value (the alignment step of every re-packing and of the
+    joins) and the packer return clean storage -/
+theorem take_and_packer_return_clean_storage {α : Type} :
+    (∀ (c : PCol α), c.Clean → ∀ (indices : List Int) (c' : PCol α), NArr.take c indices true none = .ok c' →
+      c'.Clean ∧ c'.len = indices.length ∧ c'.ty = c.ty ∧ c'.chunks ≠ []) ∧
+    (∀ (df : FlatDF α) (packed : NSeries α), packSortedDf df = .ok packed →
+      packed.col.Clean ∧ packed.col.chunks ≠ [] ∧ packed.index.length = packed.col.len) :=
+  ⟨fun c hc indices c' h => take_none_clean c hc indices c' h, fun df packed h => packSortedDf_clean df packed h⟩
+
+open NP in
+/-- non-vacuity: the sample frame (a nested column in two chunks, the first a slice into a larger
+    buffer) is sound -/
+example : Samples.qframe.Sound := by
+  constructor
+  · intro n t v hm
+    simp only [Samples.qframe, List.mem_cons, List.not_mem_nil, or_false, Prod.mk.injEq] at hm
+    rcases hm with ⟨_, hm⟩ | ⟨_, hm⟩
+    · injection hm with _ hv; subst hv; rfl
+    · cases hm
+  · intro n c hm
+    simp only [Samples.qframe, List.mem_cons, List.not_mem_nil, or_false, Prod.mk.injEq] at hm
+    rcases hm with ⟨_, hm⟩ | ⟨_, hm⟩
+    · cases hm
+    · injection hm with hc; subst hc
+      refine ⟨⟨by decide, by decide, by decide, ?_, by decide⟩, by decide, by decide⟩
+      intro s hs
+      simp only [Samples.qcol, List.mem_cons, List.not_mem_nil, or_false] at hs
+      rcases hs with rfl | rfl <;> (unfold PStruct.noHidden; decide)
 
 end NP.C18
